@@ -1722,7 +1722,7 @@ namespace awkward {
         }
       }
       return std::make_shared<RecordArray>(Identities::none(),
-                                           util::Parameters(),
+                                           rec->parameters(),
                                            contents,
                                            rec->recordlookup());
     }
